@@ -64,7 +64,7 @@ def retrieval_eval(prog):
             if len(h.calls) != 1:
                 out["cached"] = "a cached document is retrieved again (%d retrievals)" % len(h.calls)
         # 3b. falsy documents ({} and false are schemas too) are cached like any other; escaped URLs are used as written
-        for doc in ({}, False, [], 0):
+        for doc in ({}, False, [], 0, None, ""):
             h5 = Handler({"sch://host/empty": doc})
             ev5, o5, R5, st5 = _resolver(prog, {"sch": h5})
             rfu5 = ev5.find_method(R5, "resolve_from_url")
@@ -72,6 +72,16 @@ def retrieval_eval(prog):
             b = ev5.call_func(rfu5, [o5, "sch://host/empty#"], {})
             if len(h5.calls) != 1 or "sch://host/empty" not in st5.attrs["store"] or a is not doc or b is not doc:
                 out["cached"] = out["cached"] or "the retrieved document %r is not cached like any other (retrieved %d times)" % (doc, len(h5.calls))
+        # a document that *is* null (or any other falsy value) is in the store like any other: found, not fetched
+        for doc in (None, False, 0, "", [], {}):
+            h7 = Handler({})
+            ev7, o7, R7, st7 = _resolver(prog, {"sch": h7, "http": h7}, store={"http://a/falsy.json": doc})
+            try:
+                got7 = ev7.call_func(ev7.find_method(R7, "resolve_from_url"), [o7, "http://a/falsy.json#"], {})
+            except PyRaise as pr:
+                got7 = "<%s>" % pr.name
+            if got7 is not doc or h7.calls:
+                out["store-first"] = out["store-first"] or "the stored document %r is not used as it is (got %r, retrievals attempted: %r)" % (doc, got7, h7.calls)
         h6 = Handler({"sch://host/my%20doc.json": DOC})
         ev6, o6, R6, st6 = _resolver(prog, {"sch": h6, "http": h6}, store={"http://a/my%20doc.json": DOC, "http://a/caf%C3%A9/x%2Fy.json": {"x": "escaped"}})
         rfu6 = ev6.find_method(R6, "resolve_from_url")
@@ -108,6 +118,25 @@ def retrieval_eval(prog):
                     out["wrapped"] = "a retrieval failing with %s surfaces as %s, not RefResolutionError" % (type(exc).__name__, pr.name)
             if st3.attrs["store"]:
                 out["wrapped"] = "a failed retrieval leaves an entry in the store"
+        # 5b. a pointer that designates nothing gives the same RefResolutionError whether the document was in the store or just retrieved
+        msgs = []
+        for how in ("stored", "retrieved", "retrieved-uncached"):
+            h8 = Handler({"sch://host/doc": DOC})
+            ev8, o8, R8, st8 = _resolver(prog, {"sch": h8}, store={"sch://host/doc": DOC} if how == "stored" else None, cache_remote=(how != "retrieved-uncached"))
+            try:
+                ev8.call_func(ev8.find_method(R8, "resolve_from_url"), [o8, "sch://host/doc#/definitions/nickname"], {})
+                msgs.append((how, "no error"))
+            except PyRaise as pr:
+                eo = getattr(pr, "obj", None)
+                inner = None
+                if isinstance(eo, BaseException) and eo.args:
+                    inner = eo.args[0]
+                elif isinstance(eo, Obj):
+                    inner = next((v for v in eo.attrs.values() if isinstance(v, (Obj, BaseException, PyRaise))), None)
+                wraps = isinstance(inner, (BaseException, PyRaise)) or (isinstance(inner, Obj) and "Error" in inner.cls.name)
+                msgs.append((how, "%s%s" % (pr.name, " [wrapping another %s]" % (inner.cls.name if isinstance(inner, Obj) else type(inner).__name__) if wraps else "")))
+        if len({m for _h, m in msgs}) != 1 or not msgs[0][1].startswith("RefResolutionError") or "wrapping" in msgs[0][1]:
+            out["wrapped"] = out["wrapped"] or "an unresolvable pointer is reported differently depending on where the document came from: %r" % (msgs,)
         # 6. resolve(): the reference is joined to the scope in force; the pair (full URL, what that URL designates) comes back
         h4 = Handler()
         ev4, o4, R4, st4 = _resolver(prog, {"http": h4}, store={"http://base/root/other.json": DOC, "http://base/sub/other.json": {"x": "sub"},
@@ -137,6 +166,64 @@ def retrieval_eval(prog):
     except PyRaise as pr:
         out["raises"] = "raises %s (%s)" % (pr.name, pr.msg)
     return out
+
+
+def handler_docs_eval(prog):
+    """What a handler hands back *is* the document: a JSON string, number, null or array at the root is not parsed again, decoded or
+    replaced.  -> message | '' | None"""
+    try:
+        for doc in ("[10, 20]", "plain text", '"quoted"', ["a"], 7, None, True, {}, b"bytes"):
+            log = []
+
+            def handler(u, doc=doc, log=log):
+                log.append(u)
+                return doc
+            ev, o, R, st = _resolver(prog, {"sch": handler}, cache_remote=True)
+            ev.ext["requests"] = ImportError("requests")
+            try:
+                got = ev.call_func(ev.find_method(R, "resolve_remote"), [o, "sch://host/doc"], {})
+            except PyRaise as pr:
+                return "a handler returning %r makes resolve_remote raise %s" % (doc, pr.name)
+            if got is not doc:
+                return "a handler returned %r; resolve_remote hands back %r (the document is what the handler returned, unchanged)" % (doc, got)
+            if not any(v is doc for v in st.attrs["store"].values()):
+                return "a handler returned %r; with cache_remote on it is not filed as it is" % (doc,)
+    except Undecided:
+        return None
+    return ""
+
+
+def from_schema_eval(prog):
+    """RefResolver.from_schema(schema, **kw) is RefResolver(base_uri=id_of(schema), referrer=schema, **kw): every constructor option
+    reaches the resolver.  -> message | '' | None"""
+    try:
+        ev = Ev(prog, fuel=80000, real_errors=True)
+        Obj.ev = ev
+        R = ClsRef(ev, prog.cls("validators.RefResolver"))
+        fs = ev.expr(__import__("ast").parse("C.from_schema", mode="eval").body, {"C": R}, None)
+        g = lambda o, n: ev.obj_getattr(o, n)
+        schema = {"$id": "http://fs/root.json", "id": "http://fs/old.json"}
+        handlers = {"sch": lambda u: None}
+        uj, rc = (lambda a, b: "joined"), (lambda u: "fetched")
+        r1 = fs(schema, cache_remote=False, handlers=handlers, store={"http://fs/extra": {"e": 1}}, urljoin_cache=uj, remote_cache=rc)
+        if g(r1, "cache_remote") is not False:
+            return "from_schema(schema, cache_remote=False) gives a resolver with cache_remote=%r" % (g(r1, "cache_remote"),)
+        if dict(g(r1, "handlers")) != handlers:
+            return "from_schema does not hand `handlers` on to the resolver"
+        if "http://fs/extra" not in g(r1, "store"):
+            return "from_schema does not hand `store` on to the resolver"
+        if g(r1, "_urljoin_cache") is not uj or g(r1, "_remote_cache") is not rc:
+            return "from_schema does not hand the caches on to the resolver"
+        if g(r1, "referrer") is not schema or g(r1, "resolution_scope") != "http://fs/root.json":
+            return "from_schema does not base the resolver on the schema's own id (%r)" % (g(r1, "resolution_scope"),)
+        r2 = fs(schema, id_of=lambda s: s.get("id", ""))
+        if g(r2, "resolution_scope") != "http://fs/old.json" or g(r2, "cache_remote") is not True:
+            return "from_schema(schema, id_of=...) does not read the id with the function given (or changes the defaults)"
+    except Undecided:
+        return None
+    except PyRaise as pr:
+        return "raises %s (%s)" % (pr.name, pr.msg)
+    return ""
 
 
 class _Registered:
